@@ -1629,6 +1629,37 @@ pub fn run(run: &mut Run, seed: u64, thorough: bool, replay: Option<&str>, corpu
     for c in fixed_cases() {
         one(run, &c, &mut rng, 1);
     }
+    // embedded fonts that are a BUILT-IN font with exactly one glyph altered (first, second, a letter, last but one, last): the
+    // loaders recognise built-in fonts by a checksum over the glyph data and name them, the XBin saver leaves out a font that
+    // carries the default name — a checksum that misses one glyph makes load -> save -> load lose that glyph
+    {
+        let base = BitFont::default().convert_to_u8_data();
+        let h = base.len() / 256;
+        for k in [0usize, 1, 65, 254, 255] {
+            let mut data = base.clone();
+            data[k * h + h / 2] ^= 0x3C;
+            let font = BitFont::create_8("almost cp437", 8, h as u8, &data);
+            for fmt in [Fmt::Xb, Fmt::Adf, Fmt::Idf] {
+                let w = if fmt == Fmt::Xb { 5 } else { 80 };
+                let mut buf = Buffer::new((w, 2));
+                buf.is_terminal_buffer = false;
+                buf.clear_font_table();
+                buf.set_font(0, font.clone());
+                for (i, c) in [k as u32, 0x41, 0xDB, 0x20, k as u32].iter().enumerate() {
+                    buf.layers[0].set_char((i as i32, (i % 2) as i32), AttributedChar::new(char::from_u32(*c).unwrap_or('?'), TextAttribute::new(7, 0)));
+                }
+                for opts in [0u8, 1, 2, 3] {
+                    if opts & 2 != 0 && fmt == Fmt::Adf {
+                        continue;
+                    }
+                    if let Ok(bytes) = save(&buf, fmt, opts) {
+                        one_file(run, fmt, opts, &bytes, false);
+                        run.count("font:builtin-with-one-glyph-altered");
+                    }
+                }
+            }
+        }
+    }
     // exhaustive small scopes over (plain, control character 1 on attribute 0, a coloured cell, character 2)
     let a = Cell { ch: 0x41, fg: 7, bg: 0, flags: 0, page: 0 };
     let esc = Cell { ch: 1, fg: 0, bg: 0, flags: 0, page: 0 };
